@@ -95,7 +95,7 @@ pub fn spec(prop: &str) -> Option<PropSpec> {
             &["enum.damage_cases", "enum.damage_cases_in_transit", "enum.damage_cases_live", "enum.damage_walk_steps", "enum.damage_walk_melds", "probe.damage_walk_clean_compared", "fault.walk_delete", "fault.walk_restore", "probe.damage_live_read_refused", "probe.damage_open_ok", "probe.damage_open_err", "probe.damage_value_checked", "fault.damage_bitflip", "fault.damage_truncate", "fault.damage_delete", "fault.damage_junk"]),
         "C17" => s("C17", "exploration", 6000, 90000, &["probe.backend_calls"], &["contract.write"],
             "run k uses backend k mod 12 of {memory, directory, SQLite file, SQLite in-memory} x {plain, Deflate, Brotli}: (1) a replica history over SimAdapter with the real backend behind it, every read/list answered by the backend and compared with the first-write-wins model, persistent backends re-constructed on restart; (2) a seeded write/read/ranged-read/list/reopen sequence with arbitrary bytes against the same model; non-trivial = both parts ran; distinct = distinct op sequence hash",
-            &["contract.write", "contract.write_via_second_handle", "contract.second_write", "contract.read_range", "contract.list", "contract.read_missing", "fault.backend_reopen", "probe.backend_calls", "probe.backend.dir", "probe.backend.sqlite", "probe.backend.sqlite+brotli", "probe.backend.memory+flate"]),
+            &["contract.write", "contract.write_via_second_handle", "contract.write_refused", "contract.second_write", "contract.read_range", "contract.list", "contract.read_missing", "fault.backend_reopen", "probe.backend_calls", "probe.backend.dir", "probe.backend.sqlite", "probe.backend.sqlite+brotli", "probe.backend.memory+flate"]),
         "C18" => s("C18", "exploration", 6000, 90000, &["enum.config_variants"], &[],
             "per generated history the same op file is re-executed under >= 4 other hash seeds, 3 listing permutations, 3 parallel-loop orders, a seeded half of the 4x4 cache-capacity grid and one all-varied configuration; semantic digests of all replicas compared after every op; non-trivial = a history whose matrix was executed; distinct = distinct op sequence hash",
             &["enum.config_variants", "fault.config_hash", "fault.config_listing", "fault.config_parallel-loop", "fault.config_cache", "probe.conflict_at_sync"]),
